@@ -6,9 +6,18 @@ import Uniflow.Props.C01TieFn1
 import Uniflow.Props.C02TieFn2
 import Uniflow.Props.C02TieFn1
 import Uniflow.Props.C04TieFn1
+import Uniflow.Props.C01TieLayer
+import Uniflow.Props.C05TieLayer
+import Uniflow.Props.C02TieLayer
 
 theorem C03.dep_C01_packet_packet_as_modelled : type_of% C01.src_packet_packet_as_modelled := C01.src_packet_packet_as_modelled
 theorem C03.dep_C02_node_onetomany_as_modelled : type_of% C02.src_node_onetomany_as_modelled := C02.src_node_onetomany_as_modelled
 theorem C03.dep_C02_node_manytoone_as_modelled : type_of% C02.src_node_manytoone_as_modelled := C02.src_node_manytoone_as_modelled
 theorem C03.dep_C02_packet_readgroup_as_modelled : type_of% C02.src_packet_readgroup_as_modelled := C02.src_packet_readgroup_as_modelled
 theorem C03.dep_C04_process_exithook_as_modelled : type_of% C04.src_process_exithook_as_modelled := C04.src_process_exithook_as_modelled
+theorem C03.dep_C01_packet_hook_as_modelled : type_of% C01.src_packet_hook_as_modelled := C01.src_packet_hook_as_modelled
+theorem C03.dep_C05_port_openhook_as_modelled : type_of% C05.src_port_openhook_as_modelled := C05.src_port_openhook_as_modelled
+theorem C03.dep_C05_port_closehook_as_modelled : type_of% C05.src_port_closehook_as_modelled := C05.src_port_closehook_as_modelled
+theorem C03.dep_C05_port_listener_as_modelled : type_of% C05.src_port_listener_as_modelled := C05.src_port_listener_as_modelled
+theorem C03.dep_C02_node_node_as_modelled : type_of% C02.src_node_node_as_modelled := C02.src_node_node_as_modelled
+theorem C03.dep_C02_node_port_as_modelled : type_of% C02.src_node_port_as_modelled := C02.src_node_port_as_modelled
